@@ -62,13 +62,18 @@ def powi(a, n):
     return ("pow", a, int(n))
 
 
-_MEMO = {"diff": {}, "subst": {}, "resolve": {}, "eval": {}, "keep": []}
+_MEMO = {"diff": {}, "subst": {}, "resolve": {}, "eval": {}, "keep": [], "maxabs": [0.0]}
 
 
 def reset_memo():
     for k in ("diff", "subst", "resolve", "eval"):
         _MEMO[k].clear()
     del _MEMO["keep"][:]
+    _MEMO["maxabs"][0] = 0.0
+
+
+def max_intermediate():
+    return _MEMO["maxabs"][0]
 
 
 def diff(e, x):
@@ -175,6 +180,12 @@ def evaluate(e, env):
     if k in m:
         return m[k]
     out = _evaluate(e, env)
+    try:
+        a = abs(float(out))
+        if a > _MEMO["maxabs"][0] or a != a:
+            _MEMO["maxabs"][0] = a if a == a else float("inf")
+    except Exception:
+        pass
     m[k] = out
     _MEMO["keep"].append(e)
     _MEMO["keep"].append(env)
